@@ -41,10 +41,10 @@ def hostile_models(rng, n, big=False):
         if r < 0.12 and tm:
             name, base = rng.choice(tm)
         else:
-            name, base = "gen", GM.render_xml(mg.model(), rng)
+            name, base = "gen", GM.render_xml(mg.model(rich_edges=rng.random() < 0.5, dynamic=rng.random() < 0.3), rng, cdata=rng.choice([False, False, "whole"]))
         x = rng.random()
         if x < 0.30:
-            m2, d = faults.model_faults(mg.model(), rng)
+            m2, d = faults.model_faults(mg.model(rich_edges=rng.random() < 0.5), rng)
             out.append(("semantic:" + d, GM.render_xml(m2, rng)))
         elif x < 0.60:
             xml, d = faults.xml_faults(base, rng, rng.choice([1, 1, 1, 2, 3]))
@@ -109,6 +109,10 @@ def dynamic_models(rng, n):
             ("assignment", "spawn D()"), ("assignment", "spawn E(1)"), ("assignment", "spawn n(1)"), ("assignment", "exit()"),
             ("assignment", "foreach (q : D) q.x = 1"), ("assignment", "n = numOf(D)"), ("assignment", "n = sum (q : D) q.x"),
             ("invariant", "c <= sum (q : D) q.x"), ("invariant", "forall (q : D) (q.cx <= 5)"),
+            ("guard", "sum (q : D) (q.cx <= 5)"), ("guard", "(sum (q : D) (q.cx <= 5)) > 0"), ("invariant", "sum (q : D) (q.cx <= 5 && c <= 3)"),
+            ("guard", "exists (q : D) (q.cx - c < 2)"), ("assignment", "n = sum (q : D) (q.cx > 1)"), ("guard", "forall (q : D) (q.cx' == 1)"),
+            ("query", "simulate [<=10] { sum (q : D) (q.cx <= 5) }"), ("query", "E<> (sum (q : D) (q.cx <= 5)) > 1"),
+            ("query", "A[] forall (q : D) (q.cx <= 5 imply q.DA)"), ("guard", "forall (q : D) (forall (q : D) (q.x > 0))"),
             ("query", "A[] forall (q : D) q.x > 2"), ("query", "A[] forall (q : D) (q.x > 2)"), ("query", "E<> exists (q : D) (q.DA)"),
             ("query", "A[] (sum (q : D) q.x) > 2"), ("query", "E<> numOf(D) > 2"), ("query", "Pr ( <>[0,5] forall (q : D)(q.x > 2) )"),
             ("query", "Pr ( [][0,5] exists (q : D)(q.DA) )"), ("query", "A[] forall (q : D) (q.x > 2 && exists (r : D) (r.x < q.x))"),
